@@ -232,7 +232,7 @@ def run(ctx):
     ctx.clause = ("in the ELF symbol readers: results of libelf accessors that fail on corrupted sections are checked "
                   "before use, reads through pointers into section data are preceded by a size test, divisions by "
                   "sh_entsize are guarded, and no assertion depends on file contents")
-    ctx.rules = ["R-ELFNULL", "R-ELFBOUND", "R-ELFBOUND/WRAP", "R-ELFBOUND/ENTSIZE", "R-INASSERT", "R-ELFALLOC", "R-LOOPPROG"]
+    ctx.rules = ["R-ELFNULL", "R-ELFBOUND", "R-ELFBOUND/WRAP", "R-ELFBOUND/ENTSIZE", "R-INASSERT", "R-ELFALLOC", "R-LOOPPROG", "R-HANDLEARG", "R-SCNINDEX", "R-LINKWALK", "R-DEVM/UNDERFLOW", "R-DEVM/ASSERT", "R-DEVM/CONST", "R-DEVM/DIV"]
     with open(os.path.join(TABLES, "c34_tables.json")) as fh:
         T = json.load(fh)
     P = ctx.program(None)
@@ -240,9 +240,15 @@ def run(ctx):
     producers = set(T["nullable_libelf"])
     und = T["elfnull_undecided"]
     efuncs = [f for f in funcs if short(f) not in und]
-    for k_, why in und.items():
-        ctx.note("R-ELFNULL %s: not decided (%s)" % (k_, why))
+    for k_, e_ in und.items():
+        ctx.note("R-ELFNULL %s: results of %s not decided (%s)" % (k_, "/".join(e_["producers"]), e_["why"]))
     n = nr.nullable_derefs(ctx, P, efuncs, lambda d: d["n"] in producers, rule="R-ELFNULL", per_var=True)
+    for k_, e_ in sorted(und.items()):
+        if "*" in e_["producers"]:
+            continue
+        rest = producers - set(e_["producers"])
+        n += nr.nullable_derefs(ctx, P, [f for f in funcs if short(f) == k_], lambda d, rest=rest: d["n"] in rest,
+                                rule="R-ELFNULL", per_var=True)
     ctx.floor("R-ELFNULL", "dereferences of libelf results", n, 25)
     for fn, why in T["not_nullable"].items():
         ctx.note("R-ELFNULL: %s not in the producer table: %s" % (fn, why))
@@ -267,8 +273,390 @@ def run(ctx):
     ns, ni = inassert_rule.run(ctx, P, funcs, "C34", producers=lambda d: d["n"] in producers | set(T["assert_producers"]),
                                accessors=lambda d: d["n"] in acc, undecided=T["undecided"])
     ctx.floor("R-INASSERT", "assertion sites in the ELF readers", ns, 40)
+    nsi = check_scnindex(ctx, P, funcs)
+    ctx.floor("R-SCNINDEX", "elf_getscn() calls of the ELF readers", nsi, 6)
+    from rules import devm_rule
+    nu, na_, nc, nd_ = devm_rule.check(ctx, P)
+    ctx.floor("R-DEVM/UNDERFLOW", "reads of the top of the DWARF expression stack", nu, 8)
+    ctx.floor("R-DEVM/ASSERT", "assertions in the DWARF expression evaluator", na_, 5)
+    ctx.floor("R-DEVM/CONST", "uses of expr_result::const_value()", nc, 2)
+    ctx.floor("R-DEVM/DIV", "integer divisions of the expression value class", nd_, 2)
+    nlw = check_linkwalk(ctx, P, funcs, T)
+    ctx.floor("R-LINKWALK", "loops that follow links stored in section data", nlw, 1)
+    nh = check_handlearg(ctx, P)
+    ctx.floor("R-HANDLEARG", "elfutils handles passed to a parameter the callee asserts", nh, 1)
     ctx.assume("that elfutils itself is memory safe on corrupted input; the DWARF part of the reader is not covered")
 
+
+
+FILE_INDEX_FIELDS = ("sh_link", "sh_info", "st_shndx", "e_shstrndx")
+
+
+def _assigns_on_true(P, h, p):
+    """does function h assign its reference parameter p on every path that can return a true value"""
+    from rules.world import World, truth
+    key = ("assigns_on_true", h.u, p)
+    cache = P.__dict__.setdefault("_c34_cache", {})
+    if key in cache:
+        return cache[key]
+    cfg = h.cfg()
+    ok = cfg is not None
+    if ok:
+        W = World(h, lambda e: None)
+        seen, stack = set(), [(cfg.entry, False)]
+        while stack and ok:
+            b, got = stack.pop()
+            if (b, got) in seen or b not in cfg.blocks:
+                continue
+            seen.add((b, got))
+            blk = cfg.blocks[b]
+            ended = False
+            for e in blk.elems:
+                if e["k"] == "BinaryOperator" and e.get("op") == "=":
+                    l = strip_casts(e["c"][0])
+                    if l is not None and l["k"] == "DeclRefExpr" and l.get("d") == p:
+                        got = True
+                if e["k"] == "ReturnStmt":
+                    rv = W.ev(e["c"][0]) if e.get("c") and e["c"][0] is not None else frozenset([None])
+                    if True in truth(rv) and not got:
+                        ok = False
+                    ended = True
+                    break
+            if not ended and not blk.noret:
+                stack.extend((s_, got) for s_ in W.feasible_succs(b))
+    cache[key] = ok
+    return ok
+
+
+def _reaching_defs(P, f, d):
+    """forward may-analysis: which definitions of local d reach each point.  A definition is ('=', rhs node id) or
+    ('out', call node id, callee usr, param decl).  A call that hands d to a non-const reference parameter is a may-definition;
+    on the edge where its result is tested true it is the only one if the callee assigns the parameter whenever it returns true."""
+    key = ("rd", f.u, d)
+    cache = P.__dict__.setdefault("_c34_cache", {})
+    if key in cache:
+        return cache[key]
+    from engine.cfg import forward
+    cfg = f.cfg()
+    outcalls = {}
+    for x in f.nodes():
+        if x["k"] not in ("CallExpr", "CXXMemberCallExpr"):
+            continue
+        h = P.funcs.get((f.decl(x) or {}).get("u"))
+        if h is None or h.dep:
+            continue
+        for j, a in enumerate(call_args(x)):
+            a0 = strip_casts(a)
+            if a0 is None or a0["k"] != "DeclRefExpr" or a0.get("d") != d or j >= len(h.r["params"]):
+                continue
+            pt = h.unit.type((h.unit.decl(h.r["params"][j]) or {}).get("t")) or {}
+            if pt.get("ref") and not pt.get("const"):
+                outcalls[x["i"]] = ("out", x["i"], h.u, h.r["params"][j])
+
+    def tr(st, e, blk):
+        if e["k"] == "VarDecl" and e.get("d") == d:
+            return frozenset([("=", e["c"][0]["i"])]) if e.get("c") and e["c"][0] is not None else frozenset([("=", None)])
+        if e["k"] == "BinaryOperator" and e.get("op") == "=":
+            l = strip_casts(e["c"][0])
+            if l is not None and l["k"] == "DeclRefExpr" and l.get("d") == d:
+                return frozenset([("=", e["c"][1]["i"])])
+        if e["i"] in outcalls:
+            return st | {outcalls[e["i"]]}
+        return st
+
+    def edge(st, blk, idx):
+        for c in cfg.branch_conds(blk.id):
+            c0 = strip_casts(c)
+            neg = False
+            while c0 is not None and c0["k"] == "UnaryOperator" and c0.get("op") == "!":
+                neg = not neg
+                c0 = strip_casts(c0["c"][0])
+            if c0 is not None and c0["i"] in outcalls and ((idx == 0) != neg):
+                oc = outcalls[c0["i"]]
+                if _assigns_on_true(P, P.funcs[oc[2]], oc[3]):
+                    return frozenset([oc])
+        return st
+    ins, _ = forward(cfg, frozenset([("=", None)]) if d not in f.r["params"] else frozenset(), tr, edge=edge, join=lambda a, b: a | b)
+    cache[key] = (ins, tr)
+    return cache[key]
+
+
+def index_provenance(P, f, e, at=None, depth=0):
+    """{'file', 'valid', 'unknown'}: where a section index comes from - a word of the file (sh_link ...), or the index of a
+    section the code found by walking the section table (elf_ndxscn) / a literal.  Follows locals (the definitions that
+    reach `at`), parameters (through every caller) and locals filled through a reference parameter of a callee."""
+    from engine.cfg import state_before
+    e = strip_casts(e)
+    if e is None or depth > 8:
+        return {"unknown"}
+    if any(x["k"] == "MemberExpr" and (f.decl(x) or {}).get("n") in FILE_INDEX_FIELDS for x in walk(e)):
+        return {"file"}
+    if e["k"] == "CallExpr" and (f.decl(e) or {}).get("n") == "elf_ndxscn":
+        return {"valid"}
+    if e["k"] == "IntegerLiteral":
+        return {"valid"}
+    if e["k"] != "DeclRefExpr":
+        return {"unknown"}
+    d = e.get("d")
+    out = set()
+    if d in f.r["params"]:
+        i = f.r["params"].index(d)
+        for g, call in nr._callsites(P).get(f.u, []):
+            a = call_args(call)
+            if i < len(a) and a[i] is not None and a[i]["k"] != "CXXDefaultArgExpr":
+                out |= index_provenance(P, g, a[i], call, depth + 1)
+        return out or {"unknown"}
+    if f.cfg() is None:
+        return {"unknown"}
+    ins, tr = _reaching_defs(P, f, d)
+    st = state_before(f.cfg(), ins, tr, at if at is not None else e)
+    if st is TOP:
+        return {"valid"}
+    for df in st:
+        if df[0] == "=":
+            if df[1] is None:
+                out.add("valid")            # default / zero initialisation
+            else:
+                out |= index_provenance(P, f, f.node(df[1]), f.node(df[1]), depth + 1)
+        else:
+            h = P.funcs[df[2]]
+            for y in h.nodes():
+                if y["k"] == "BinaryOperator" and y.get("op") == "=":
+                    l = strip_casts(y["c"][0])
+                    if l is not None and l["k"] == "DeclRefExpr" and l.get("d") == df[3]:
+                        out |= index_provenance(P, h, y["c"][1], y, depth + 1)
+    return out or {"unknown"}
+
+
+def check_scnindex(ctx, P, funcs, rule="R-SCNINDEX"):
+    """R-SCNINDEX: elf_getscn(elf, i) returns null exactly when i is not a section of the file.  Where i is a word of the
+    file (sh_link of a hash / dynamic / symbol-table section ...), the result - or the header gelf_getshdr() makes of it -
+    is never asserted upon without a dominating test: a one-word corruption would abort the tool."""
+    from rules.inassert_rule import assertion_sites, atoms
+    n = 0
+    for f in sorted(funcs, key=lambda x: (x.file, x.l0)):
+        if f.dep or f.cfg() is None:
+            continue
+        calls = [x for x in f.nodes() if x["k"] == "CallExpr" and (f.decl(x) or {}).get("n") == "elf_getscn"]
+        if not calls:
+            continue
+        ctx.analysed(f)
+        nf = None
+        seen = {}
+        for c in calls:
+            args = call_args(c)
+            if len(args) < 2:
+                continue
+            n += 1
+            prov = index_provenance(P, f, args[1], c)
+            ent = "%s: elf_getscn(%s)" % (short(f), expr_str(f, args[1]))
+            ent += occurrence_tag(seen, ent)
+            if "file" not in prov:
+                ctx.ob(rule, ent, True, f.loc(c), "the index is %s" % (
+                    "that of a section found by walking the section table" if prov == {"valid"} else
+                    "of undetermined origin (%s): not decided" % "/".join(sorted(prov))))
+                continue
+            # the variables that hold the result (or its header)
+            keys = set()
+            node = c
+            while True:
+                par = f.parent(node)
+                if par is None:
+                    break
+                if par["k"] == "VarDecl":
+                    keys.add((f.decl(par) or {}).get("n"))
+                    break
+                if par["k"] == "BinaryOperator" and par.get("op") == "=":
+                    k = ptr_key(f, par["c"][0])
+                    if k:
+                        keys.add(k)
+                    break
+                if par["k"] in ("CompoundStmt", "IfStmt", "ReturnStmt", "FunctionBody", "ForStmt", "WhileStmt"):
+                    break
+                node = par
+            bad = []
+            for site, cond, kind in assertion_sites(f):
+                if cond is None:
+                    continue
+                for a in atoms(f, cond):
+                    a0 = strip_casts(a)
+                    if a0 is not None and a0["k"] == "BinaryOperator" and a0.get("op") == "!=":
+                        a0 = strip_casts(a0["c"][0])
+                    k = ptr_key(f, a0) if a0 is not None else None
+                    if k and k in keys:
+                        if nf is None:
+                            nf = NullFlow(f).solve()
+                        st = nf.before(site)
+                        if st is not TOP and ("nn", k) not in st:
+                            bad.append((site, k))
+            ctx.ob(rule, ent, not bad, f.loc(bad[0][0]) if bad else f.loc(c),
+                   "the index is a word of the file; the result (%s) is tested, never asserted" % ", ".join(sorted(k for k in keys if k)) if not bad else
+                   "the index is a word of the file (%s): for a value that is not a section of the file elf_getscn() returns "
+                   "null and ABG_ASSERT(%s) aborts the tool" % (expr_str(f, args[1]), bad[0][1]))
+    return n
+
+
+def check_linkwalk(ctx, P, funcs, T, rule="R-LINKWALK"):
+    """R-LINKWALK (termination): a loop that *follows links stored in section data* - the variable its condition tests is
+    replaced, inside the loop, by a value read through a pointer into an Elf_Data buffer (`i = chain[i]`) - ends only if
+    the data is acyclic, which a corrupted file need not be.  Such a loop needs a second exit governed by a counter of its
+    own: a local that the loop increments and that is not read from the data, tested by a conditional break / return."""
+    n = 0
+    for f in sorted(funcs, key=lambda x: (x.file, x.l0)):
+        if f.dep or f.cfg() is None:
+            continue
+        derived = buffer_pointers(f)
+        if not derived:
+            continue
+        table_fields = set(T["buffer_fields"])
+
+        def reads_data(e):
+            for x in walk(e):
+                base = None
+                if x["k"] == "ArraySubscriptExpr":
+                    base = strip_casts(x["c"][0])
+                elif x["k"] == "UnaryOperator" and x.get("op") == "*":
+                    base = strip_casts(x["c"][0])
+                if base is None:
+                    continue
+                if base["k"] == "DeclRefExpr" and ("v", base.get("d")) in derived:
+                    return expr_str(f, x)
+                if base["k"] == "MemberExpr" and (("f", (f.decl(base) or {}).get("n")) in derived or
+                                                  (f.decl(base) or {}).get("n") in table_fields):
+                    return expr_str(f, x)
+            return None
+        seen = {}
+        for L in f.nodes():
+            if L["k"] not in ("WhileStmt", "DoStmt", "ForStmt"):
+                continue
+            cond = L["c"][0] if L["k"] == "WhileStmt" else (L["c"][1] if L["k"] == "DoStmt" else L["c"][2] if len(L["c"]) > 2 else None)
+            if L["k"] == "ForStmt":
+                # children: init, (condvar), cond, inc, body - take every expression child but the body as "head"
+                cond = None
+                for c in L["c"][:-1]:
+                    if c is not None and c["k"] in ("BinaryOperator", "ImplicitCastExpr", "DeclRefExpr", "UnaryOperator", "CXXOperatorCallExpr") \
+                            and not (c["k"] == "BinaryOperator" and c.get("op") in ("=", ",")) and not (c["k"] == "UnaryOperator" and c.get("op") in ("++", "--")):
+                        cond = c
+            if cond is None:
+                continue
+            cvars = {x.get("d") for x in walk(cond) if x["k"] == "DeclRefExpr" and (f.decl(x) or {}).get("k") in ("Var", "ParmVar")}
+            inside = [x for x in walk(L)]
+            links = []
+            for x in inside:
+                if x["k"] == "BinaryOperator" and x.get("op") == "=":
+                    l = strip_casts(x["c"][0])
+                    if l is not None and l["k"] == "DeclRefExpr" and l.get("d") in cvars:
+                        src = reads_data(x["c"][1])
+                        if src:
+                            links.append((x, l, src))
+            if not links:
+                continue
+            n += 1
+            ctx.analysed(f)
+            x, l, src = links[0]
+            # a counter of the loop's own: incremented inside, never assigned from data, tested by a conditional exit
+            counters = set()
+            for y in inside:
+                if (y["k"] == "UnaryOperator" and y.get("op") in ("++", "--")) or (y["k"] == "CompoundAssignOperator" and y.get("op") in ("+=", "-=")):
+                    t = strip_casts(y["c"][0])
+                    if t is not None and t["k"] == "DeclRefExpr" and t.get("d") != l.get("d"):
+                        if y["k"] == "CompoundAssignOperator" and reads_data(y["c"][1]):
+                            continue
+                        counters.add(t.get("d"))
+            for y in inside:
+                if y["k"] == "BinaryOperator" and y.get("op") == "=":
+                    t = strip_casts(y["c"][0])
+                    if t is not None and t["k"] == "DeclRefExpr" and t.get("d") in counters and reads_data(y["c"][1]):
+                        counters.discard(t.get("d"))
+            bounded = None
+            for y in inside:
+                if y["k"] == "IfStmt" and y.get("c") and y["c"][0] is not None and len(y["c"]) > 1 and y["c"][1] is not None:
+                    if any(z["k"] in ("BreakStmt", "ReturnStmt") for z in walk(y["c"][1])) and \
+                            any(z["k"] == "DeclRefExpr" and z.get("d") in counters for z in walk(y["c"][0])):
+                        bounded = y
+            ent = "%s: the walk `%s = %s` is bounded by a counter" % (short(f), expr_str(f, l), src)
+            ent += occurrence_tag(seen, ent)
+            ctx.ob(rule, ent, bounded is not None, f.loc(x),
+                   "exit under `%s`" % expr_str(f, bounded["c"][0])[:80] if bounded is not None else
+                   "the loop at %s goes on until `%s` reads a terminating value out of the section; nothing counts its "
+                   "iterations: a section in which the links form a cycle never ends the loop" % (f.loc(L), expr_str(f, cond)[:60]))
+    return n
+
+
+HANDLE_TYPES = ("Elf *", "Dwarf *", "Dwfl_Module *", "Dwfl *", "Elf_Scn *")
+
+
+def _handle_type(t):
+    s = (t or {}).get("s", "") if isinstance(t, dict) else ""
+    c = (t or {}).get("c", "") if isinstance(t, dict) else ""
+    return any(s.replace("const ", "").strip() == h or c.replace("const ", "").strip() == h for h in HANDLE_TYPES)
+
+
+def check_handlearg(ctx, P, rule="R-HANDLEARG"):
+    """R-HANDLEARG: elfutils hands out null handles for a file it cannot make sense of (truncated inside its headers,
+    not ELF at all): the readers' handle getters - the functions of this repository that return an Elf* / Dwarf* /
+    Dwfl_Module* ... - are nullable.  Wherever such a result (directly, or through a local) is passed to a parameter that
+    the callee asserts to be non-null (`ABG_ASSERT(param)`), a test of that same handle dominates the call.  Otherwise a
+    truncated input aborts the tool - no error status, exit by signal."""
+    asserted = {}            # callee usr -> {param index: location}
+    for f in P.all_funcs():
+        if f.dep or f.cfg() is None or not f.r["params"]:
+            continue
+        for x in f.nodes():
+            if x["k"] == "VarDecl" and f.macro(x) == "ABG_ASSERT" and (f.decl(x) or {}).get("n") == "__abg_cond__" and x.get("c"):
+                c = strip_casts(x["c"][0])
+                while c is not None and c["k"] in ("CXXStaticCastExpr", "CXXFunctionalCastExpr", "ParenExpr"):
+                    c = strip_casts(c["c"][0])
+                if c is None or c["k"] != "DeclRefExpr" or c.get("d") not in f.r["params"]:
+                    continue
+                if _handle_type(f.type(c)):
+                    asserted.setdefault(f.u, {})[f.r["params"].index(c["d"])] = f.loc(x)
+    if not asserted:
+        raise AnalysisBroken("anchor vanished: no function asserts an elfutils handle parameter (symtab::load did)")
+    getters = {u for u, g in P.funcs.items() if not g.dep and g.r.get("ret") and _handle_type(g.ret_type())}
+    n = 0
+    for g in sorted(P.all_funcs(), key=lambda x: (x.file, x.l0)):
+        if g.dep or g.cfg() is None:
+            continue
+        sites = [(x, (g.decl(x) or {}).get("u")) for x in g.nodes()
+                 if x["k"] in ("CallExpr", "CXXMemberCallExpr") and (g.decl(x) or {}).get("u") in asserted]
+        if not sites:
+            continue
+        nf = None
+        seen = {}
+        for x, u in sites:
+            callee = P.funcs[u]
+            for idx, where in sorted(asserted[u].items()):
+                args = call_args(x)
+                if idx >= len(args) or args[idx] is None:
+                    continue
+                a = strip_casts(args[idx])
+                src = a
+                if a is not None and a["k"] == "DeclRefExpr" and a.get("d") not in g.r["params"]:
+                    for v in g.nodes():
+                        if v["k"] == "VarDecl" and v.get("d") == a.get("d") and v.get("c") and v["c"][0] is not None:
+                            src = strip_casts(v["c"][0])
+                if src is None or src["k"] not in ("CallExpr", "CXXMemberCallExpr") or (g.decl(src) or {}).get("u") not in getters:
+                    if a is not None and a["k"] == "DeclRefExpr" and a.get("d") in g.r["params"]:
+                        continue          # a parameter handed on: the obligation is the caller's (its own assertion, if any)
+                    if a is not None and a["k"] in ("CallExpr", "CXXMemberCallExpr") and (g.decl(a) or {}).get("n", "").startswith(("elf_", "dwfl_", "dwarf_", "gelf_")):
+                        pass              # a raw elfutils call: nullable as well
+                    else:
+                        continue
+                n += 1
+                ctx.analysed(g)
+                if nf is None:
+                    nf = NullFlow(g).solve()
+                st = nf.before(x)
+                key = ptr_key(g, a)
+                ok = st is TOP or (key is not None and ("nn", key) in st)
+                ent = "%s: %s(%s) is given a handle that was tested" % (short(g), callee.n, expr_str(g, a))
+                ent += occurrence_tag(seen, ent)
+                ctx.ob(rule, ent, ok, g.loc(x),
+                       "`%s` is known non-null at the call" % key if ok else
+                       "`%s` is null when elfutils cannot open the file (truncated inside its headers); %s asserts that "
+                       "parameter (%s): the tool aborts instead of reporting an unreadable input" % (expr_str(g, a), callee.n, where))
+    return n
 
 
 ALLOC_METHODS = ("reserve", "resize", "assign")
